@@ -48,6 +48,7 @@ func genC08ReadLoop() string {
 	loopFound, readFound, examineFound, examineTopLevel := false, false, false, false
 	var jumps []string
 	examinedBuf := ""
+	var crossUses []string // uses of one version's delimiter outside that version's `case` in read()
 	var msgIDArgs, subIDArgs, storedArgs []string
 	detFound := false
 	promptAssigns, selectedAssigns, promptBeforeLastSelected := 0, 0, 0
@@ -81,6 +82,47 @@ func genC08ReadLoop() string {
 					}
 					switch fd.Name.Name {
 					case "read":
+						{
+							// every mention of v1Dot0Delim / v1Dot1Delim in read(), with the version constant of
+							// the innermost enclosing `case V1DotX:` (if any)
+							var stack []ast.Node
+							ast.Inspect(fd.Body, func(n ast.Node) bool {
+								if n == nil {
+									stack = stack[:len(stack)-1]
+									return true
+								}
+								stack = append(stack, n)
+								name := ""
+								switch x := n.(type) {
+								case *ast.Ident:
+									name = x.Name
+								}
+								if name == "v1Dot0Delim" || name == "v1Dot1Delim" {
+									want := "V1Dot0"
+									if name == "v1Dot1Delim" {
+										want = "V1Dot1"
+									}
+									inCase := ""
+									var stmt ast.Node
+									for i := len(stack) - 1; i >= 0; i-- {
+										if cc, ok := stack[i].(*ast.CaseClause); ok && inCase == "" {
+											for _, e := range cc.List {
+												if id, ok := e.(*ast.Ident); ok {
+													inCase = id.Name
+												}
+											}
+										}
+										if _, ok := stack[i].(ast.Stmt); ok && stmt == nil {
+											stmt = stack[i]
+										}
+									}
+									if inCase != want {
+										crossUses = append(crossUses, name+" in: "+c08ExprString(fset, src, stmt))
+									}
+								}
+								return true
+							})
+						}
 						for _, st := range fd.Body.List {
 							loop, ok := st.(*ast.ForStmt)
 							if !ok {
@@ -236,6 +278,7 @@ func genC08ReadLoop() string {
 	fmt.Fprintf(&b, "/-- the expression the end-of-message test `d.Channel.PromptPattern.Match(…)` examines (the read loop's message buffer) -/\ndef examinedBuffer : String := %s\n", strconv.Quote(examinedBuf))
 	fmt.Fprintf(&b, "/-- the arguments of `patterns.messageID.FindSubmatch(…)` / `patterns.subscriptionID.FindSubmatch(…)` inside that test, as written -/\ndef messageIDSearchArgs : List String := %s\ndef subscriptionIDSearchArgs : List String := %s\n", ql(msgIDArgs), ql(subIDArgs))
 	fmt.Fprintf(&b, "/-- the message arguments of `storeMessage` / `storeSubscriptionMessage` inside that test, as written -/\ndef storedMessageArgs : List String := %s\n", ql(storedArgs))
+	fmt.Fprintf(&b, "/-- mentions of `v1Dot0Delim` / `v1Dot1Delim` in `(*Driver).read` that are NOT inside the `case` of their own version (with the statement they occur in): the read loop of one version must not look for the other version's end-of-message marker -/\ndef delimiterUsesOutsideOwnVersionCase : List String := %s\n", ql(crossUses))
 	fmt.Fprintf(&b, "/-- `(*Driver).determineVersion` found -/\ndef determineVersionFound : Bool := %v\n", detFound)
 	fmt.Fprintf(&b, "/-- assignments to `d.Channel.PromptPattern` / `d.SelectedVersion` in `determineVersion` -/\ndef promptPatternAssigns : Nat := %d\ndef selectedVersionAssigns : Nat := %d\n", promptAssigns, selectedAssigns)
 	fmt.Fprintf(&b, "/-- assignments to `d.Channel.PromptPattern` that stand before the last assignment to `d.SelectedVersion` -/\ndef promptPatternAssignsBeforeLastSelectedVersion : Nat := %d\n", promptBeforeLastSelected)
